@@ -71,6 +71,18 @@ func extraPayloads(wd *mixed.World, at string) []mixed.CatEntry {
 	es = append(es, mixed.CatEntry{Inst: "img", Method: "GET", Path: "raw/0_1_2/64_64_64/-16_-16_-16"})
 	es = append(es, mixed.CatEntry{Inst: "img", Method: "GET", Path: "raw/0_1/64_64/0_0_5"})
 	es = append(es, mixed.CatEntry{Inst: "img", Method: "GET", Path: "subvolblocks/64_64_64/0_0_0?compression=uncompressed"})
+	// throttled requests ("throttle=true": at most MaxThrottledOps such requests are served at a time, the rest get 503):
+	// accepted ones, and ones that carry a body of the right length but are refused for what they ask
+	img := make([]byte, 32*32*32)
+	for i := range img {
+		img[i] = byte(i%251 + 1)
+	}
+	for _, q := range []string{"raw/0_1_2/32_32_32/0_0_0?throttle=true", "raw/0_1_2/32_32_32/1_0_0?throttle=true", "raw/0_1_2/32_32_32/32_0_0?throttle=true&roi=nosuchroi", "raw/0_1_2/32_32_32/0_32_0?throttle=on&mutate=true"} {
+		es = append(es, mixed.CatEntry{Inst: "img", Method: "POST", Path: q, Body: img})
+	}
+	es = append(es, mixed.CatEntry{Inst: "img", Method: "GET", Path: "raw/0_1_2/32_32_32/0_0_0?throttle=true"})
+	es = append(es, mixed.CatEntry{Inst: "lm", Method: "GET", Path: "raw/0_1_2/64_64_64/0_0_0?throttle=true"})
+	es = append(es, mixed.CatEntry{Inst: "lm", Method: "POST", Path: "raw/0_1_2/32_32_32/0_0_0?throttle=true", Body: lmwire.EncodeVolume(mk(3))})
 	// read endpoints whose arguments are path segments
 	es = append(es, mixed.CatEntry{Inst: "lm", Method: "GET", Path: "proximity/1/2"})
 	es = append(es, mixed.CatEntry{Inst: "lm", Method: "GET", Path: "sparsevol-by-point/10_10_10"})
@@ -259,6 +271,8 @@ type runner struct {
 	wd     *mixed.World
 	target string
 	hints  *mixed.Hints
+	// a leaked throttle slot is reported once per run, at the request after which it was first seen
+	throttleReported bool
 }
 
 func (rn *runner) restart() error {
@@ -374,6 +388,15 @@ func (rn *runner) batch(reqs []hreq, bi int) error {
 			c.Violation("server-unresponsive-after:"+q.class+":"+crashSite(fatal), fmt.Sprintf("[%s] after %s the next request is not served (%v %v): %s", rn.flav, desc, pr, err, drv.Trunc(fatal, 500)), wit)
 			if rn.w.Dead() || err != nil {
 				return rn.restart()
+			}
+		}
+		// ... and so is a throttled one: nothing else is in flight, so no throttle slot can be taken
+		if strings.Contains(q.path, "throttle") && rn.wd.Has("img") {
+			tr, err := rn.w.Get("/api/node/" + rn.target + "/img/raw/0_1_2/32_32_32/0_0_0?throttle=true")
+			c.Count("throttled_liveness_probes", 1)
+			if err == nil && tr.Status == 503 && !rn.throttleReported {
+				rn.throttleReported = true
+				c.Violation("throttled-requests-refused-for-good-after:"+q.class, fmt.Sprintf("[%s] after %s (answered %d) a throttled request is answered 503 although no other request is in flight: %s", rn.flav, desc, resp.Status, drv.Trunc(string(tr.Body), 200)), wit)
 			}
 		}
 	}
